@@ -2,7 +2,8 @@
 """Regenerates MANIFEST.json from checks.json (+ properties.jsonl for the not_applicable list)."""
 import json, os
 ROOT = os.path.dirname(os.path.abspath(__file__))
-table = json.load(open(os.path.join(ROOT, "checks.json")))
+import glob
+table = {os.path.basename(p)[:-5]: json.load(open(p)) for p in sorted(glob.glob(os.path.join(ROOT, "checks", "C*.json")))}
 props = [json.loads(l) for l in open(os.path.join(ROOT, "properties.jsonl")) if l.strip()]
 na_reasons = {}
 p = os.path.join(ROOT, "not_applicable.json")
